@@ -592,6 +592,63 @@ def check_formulas(prog, rep, m):
     ok = (both or (plus and minus)) and before
     rep.add('K4', g, 'equal_interval', 'infinities removed before nanmin / nanmax', g.node.lineno, ok,
             '+inf and -inf must not take part in the [min, max] range')
+    # ... and the range is taken in floating point on every path: the extrema are reductions of the NaN-filled array (a
+    # `where(.., nan, data)` promotes an integer raster to float64) or of a float cast of it.  A selection `data[mask]` keeps
+    # the raster's own dtype: for an int16 raster spanning more than 32767 the difference max - min wraps around.
+    from ..sharedrules import float_dtype_expr
+    RED = ('nanmax', 'nanmin', 'max', 'min', 'amax', 'amin')
+    seen_red = []
+
+    def fl_expr(e, st):
+        if isinstance(e, ast.Name):
+            return st.get(e.id)
+        if isinstance(e, ast.Call):
+            nm_ = short(e)
+            if nm_ == 'where' and len(e.args) == 3:
+                if any(names.get(norm(a_)) == 'nan' for a_ in e.args[1:]):
+                    return 'float'
+                a_, b_ = fl_expr(e.args[1], st), fl_expr(e.args[2], st)
+                return a_ if a_ == b_ else None
+            if nm_ == 'astype' and isinstance(e.func, ast.Attribute) and e.args:
+                return 'float' if float_dtype_expr(prog, g, e.args[0]) else None
+            if nm_ in ('ravel', 'flatten', 'reshape', 'compute', 'copy', 'persist', 'rechunk') and isinstance(e.func, ast.Attribute):
+                return fl_expr(e.func.value, st)
+            if nm_ in ('asarray', 'array', 'ravel') and e.args and not e.keywords:
+                return fl_expr(e.args[0], st)
+            return None
+        if isinstance(e, ast.Subscript):
+            return fl_expr(e.value, st)
+        if isinstance(e, ast.Attribute) and e.attr in ('data', 'values', 'T') :
+            return 'raw' if isinstance(e.value, ast.Name) and e.value.id in g.params else fl_expr(e.value, st)
+        return None
+
+    def run(body, st):
+        for s_ in body:
+            if isinstance(s_, ast.If):
+                a_, b_ = dict(st), dict(st)
+                run(s_.body, a_)
+                run(s_.orelse, b_)
+                for k_ in set(a_) | set(b_):
+                    st[k_] = a_.get(k_) if a_.get(k_) == b_.get(k_) else None
+            elif isinstance(s_, ast.Assign) and len(s_.targets) == 1 and isinstance(s_.targets[0], ast.Name):
+                v_ = s_.value
+                if isinstance(v_, ast.Call) and short(v_) in RED and s_.targets[0].id in (mxn, mnn):
+                    opnd = v_.func.value if isinstance(v_.func, ast.Attribute) and not v_.args else (v_.args[0] if v_.args else None)
+                    if isinstance(v_.func, ast.Attribute) and v_.args and norm(v_.func.value) in ('module', 'np', 'da', 'numpy', 'cupy', 'dask.array'):
+                        opnd = v_.args[0]
+                    seen_red.append((s_, fl_expr(opnd, st) if opnd is not None else None))
+                    st[s_.targets[0].id] = None
+                else:
+                    st[s_.targets[0].id] = fl_expr(v_, st)
+            elif isinstance(s_, (ast.For, ast.While, ast.With, ast.Try)):
+                for fld in ('body', 'orelse', 'finalbody'):
+                    run(getattr(s_, fld, []) or [], st)
+    run(g.body, {})
+    for s_, fl in seen_red:
+        rep.add('K4', g, 'equal_interval', 'range in floating point: %s' % norm(s_)[:90], s_.lineno,
+                True if fl == 'float' else (False if fl == 'raw' else None),
+                'the extremum is a reduction of the raster in its own dtype (no NaN fill, no float cast on this path): for a narrow '
+                'integer raster max - min wraps around (int16 from -20000 to 20000: width < 0, every cell lands in class k-1)')
     # quantile
     q = m.funcs.get('_run_quantile')
     if q is None:
